@@ -4,16 +4,91 @@
 //! `pub(crate)` items are reachable.
 include!(concat!(env!("OUT_DIR"), "/mount.rs"));
 pub mod harness;
+#[cfg(feature = "sched")]
 pub mod props;
 pub mod verif_rt;
 
+#[cfg(feature = "sched")]
 use props::{Ctx, Tier};
 
+/// `native` backend: replay conformance traces written by the `sched` backend on the real crates.
+#[cfg(feature = "native")]
+fn main() {
+    use harness::seqcore::*;
+    let args: Vec<String> = std::env::args().collect();
+    if args.len() < 3 || args[1] != "conform" {
+        eprintln!("usage: mc-native conform <trace.jsonl>...");
+        std::process::exit(2);
+    }
+    let (mut n, mut bad, mut skipped) = (0u64, 0u64, 0u64);
+    let part: Option<(u64, u64)> = std::env::var("MC_PART").ok().and_then(|s| s.split_once('/').map(|(a, b)| (a.parse().unwrap_or(0), b.parse().unwrap_or(1))));
+    let mut lineno = 0u64;
+    for path in &args[2..] {
+        let text = match std::fs::read_to_string(path) {
+            Ok(t) => t,
+            Err(e) => {
+                eprintln!("MACHINERY-ERROR cannot read {}: {}", path, e);
+                std::process::exit(2);
+            }
+        };
+        for line in text.lines() {
+            lineno += 1;
+            if let Some((i, k)) = part {
+                if lineno % k != i {
+                    continue;
+                }
+            }
+            let v: serde_json::Value = match serde_json::from_str(line) {
+                Ok(v) => v,
+                Err(_) => continue,
+            };
+            if v["evicted"].as_bool().unwrap_or(false) {
+                // victim choice among equals depends on the map's iteration order, which the shim enumerates
+                // and the real map fixes by its hasher: such histories are compared on the sched side only
+                skipped += 1;
+                continue;
+            }
+            let setup = setup_from_json(&v["setup"]);
+            let ops: Vec<crate::harness::kit::Op> = match v["ops"].as_array().map(|a| a.iter().map(op_from_json).collect::<Result<Vec<_>, _>>()) {
+                Some(Ok(o)) => o,
+                _ => continue,
+            };
+            let r = std::panic::catch_unwind(|| {
+                let run = execute(setup, Default::default(), &ops);
+                (run.history(), canon(&run, ops.len(), &[], true))
+            });
+            n += 1;
+            match r {
+                Ok((hist, cn)) => {
+                    let want_hist: Vec<String> = v["observed"].as_array().map(|a| a.iter().filter_map(|x| x.as_str().map(|s| s.to_string())).collect()).unwrap_or_default();
+                    let want_canon = v["canon"].as_str().unwrap_or("");
+                    if hist != want_hist || cn != want_canon {
+                        bad += 1;
+                        if bad <= 5 {
+                            eprintln!("CONFORMANCE-MISMATCH {}:{}\n  ops: {:?}\n  sched:  {:?} | {}\n  native: {:?} | {}", path, lineno, ops.iter().map(|o| o.short()).collect::<Vec<_>>(), want_hist, want_canon, hist, cn);
+                        }
+                    }
+                }
+                Err(e) => {
+                    bad += 1;
+                    let m = e.downcast_ref::<String>().cloned().or_else(|| e.downcast_ref::<&str>().map(|s| s.to_string())).unwrap_or_default();
+                    eprintln!("CONFORMANCE-MISMATCH {}:{} native run failed: {} (ops {:?})", path, lineno, m, ops.iter().map(|o| o.short()).collect::<Vec<_>>());
+                    crate::verif_rt::world::abandon();
+                }
+            }
+        }
+    }
+    println!("conformance: replayed={} mismatches={} skipped_evicting={}", n, bad, skipped);
+    std::process::exit(if bad == 0 { 0 } else { 2 });
+}
+
+#[cfg(feature = "sched")]
 fn usage() -> ! {
     eprintln!("usage: mc run <ID> [--tier quick|thorough] [--seed N] [--evidence DIR] [--known FILE] [--workers N] [--only SUBSTR]\n       mc replay <file>\n       mc list");
     std::process::exit(2)
 }
 
+#[cfg(feature = "sched")]
 fn main() {
     let args: Vec<String> = std::env::args().collect();
     if args.len() < 2 {
